@@ -1,7 +1,10 @@
 import BromeliaVerif.Model.Bytes
 /-! `Unsigned32Type.is_bit_set / set_bit / unset_bit` (bromelia/types.py), hand model.
-The four data bytes are the big-endian image of a word `w < 2^32`; `d k` is `self.data[k]`. -/
+`d k` is `self.data[k]` (k = 0 is the most significant byte of the big-endian word). -/
 namespace BV.Bits
+
+/-- the big-endian word carried by four data bytes -/
+def word (d : Nat → Nat) : Nat := d 0 * 2 ^ 24 + d 1 * 2 ^ 16 + d 2 * 2 ^ 8 + d 3
 
 /-- byte k (0 = most significant) of a 32-bit word, as Python sees `data[k]` -/
 def byteOf (w : Nat) (k : Nat) : Nat := w / 2 ^ (8 * (3 - k)) % 256
@@ -14,38 +17,27 @@ def isBitSetD (d : Nat → Nat) (b : Nat) : Option Bool :=
   else if b < 32 then some (d 0 &&& 2 ^ (b % 8) != 0)
   else none
 
+/-- replace byte `k` of the accessor -/
+def upd (d : Nat → Nat) (k v : Nat) : Nat → Nat := fun i => if i = k then v else d i
+
+/-- `set_bit`: `none` = `DiameterTypeError` (already set, or index out of range); otherwise the new
+    data bytes: the byte holding the bit is rewritten with `| 2 ** (bit % 8)` -/
+def setBitD (d : Nat → Nat) (b : Nat) : Option (Nat → Nat) :=
+  match isBitSetD d b with
+  | none => none
+  | some true => none
+  | some false => some (upd d (3 - b / 8) (d (3 - b / 8) ||| 2 ^ (b % 8)))
+
+/-- `unset_bit`: same with `^ 2 ** (bit % 8)`; `none` when the bit is already clear / out of range -/
+def unsetBitD (d : Nat → Nat) (b : Nat) : Option (Nat → Nat) :=
+  match isBitSetD d b with
+  | none => none
+  | some false => none
+  | some true => some (upd d (3 - b / 8) (d (3 - b / 8) ^^^ 2 ^ (b % 8)))
+
+/-- word-level wrappers used by the driver -/
 def isBitSet (w b : Nat) : Option Bool := isBitSetD (byteOf w) b
-
-/-- result of `set_bit` / `unset_bit`: the new word, or `none` = `DiameterTypeError`.
-    The code rewrites one data byte with `| 2**(bit%8)` resp. `^ 2**(bit%8)`. -/
-def setBit (w b : Nat) : Option Nat :=
-  match isBitSet w b with
-  | none => none
-  | some true => none
-  | some false => some (w ||| 2 ^ b)
-
-def unsetBit (w b : Nat) : Option Nat :=
-  match isBitSet w b with
-  | none => none
-  | some false => none
-  | some true => some (w ^^^ 2 ^ b)
-
-/-- byte-level version of what the code does: replace byte `3 - b/8` by `f (old byte) (2^(b%8))` -/
-def updByte (f : Nat → Nat → Nat) (w b : Nat) : Nat :=
-  let k := 3 - b / 8
-  let nb := f (byteOf w k) (2 ^ (b % 8))
-  w - byteOf w k * 2 ^ (8 * (3 - k)) + nb * 2 ^ (8 * (3 - k))
-
-def setBitBytes (w b : Nat) : Option Nat :=
-  match isBitSet w b with
-  | none => none
-  | some true => none
-  | some false => some (updByte (· ||| ·) w b)
-
-def unsetBitBytes (w b : Nat) : Option Nat :=
-  match isBitSet w b with
-  | none => none
-  | some false => none
-  | some true => some (updByte (· ^^^ ·) w b)
+def setBit (w b : Nat) : Option Nat := (setBitD (byteOf w) b).map word
+def unsetBit (w b : Nat) : Option Nat := (unsetBitD (byteOf w) b).map word
 
 end BV.Bits
